@@ -3,9 +3,11 @@
 TIER=${1:-quick}; shift
 IDS=${@:-C01 C02 C03 C04 C05 C06 C07 C08 C09 C10 C11 C12 C13 C14 C15 C16 C17 C18 C19 C20}
 cd "$(dirname "$0")"
+bad=0
 for c in $IDS; do
   s=$(date +%s)
   out=$(python3 check.py $c --tier $TIER 2>&1); rc=$?
   echo "$c rc=$rc $(( $(date +%s) - s ))s :: $(echo "$out" | tail -1 | cut -c1-200)"
-  [ $rc -ne 0 ] && echo "$out" | grep -m5 "VIOLATION\|MACHINERY\|KNOWN" | cut -c1-300
+  if [ $rc -ne 0 ]; then bad=1; echo "$out" | grep -m5 "VIOLATION\|MACHINERY\|KNOWN" | cut -c1-300; fi
 done
+exit $bad
